@@ -65,11 +65,8 @@ package fiber
 //@        && callarg("field:Config.ErrorHandler", 0, 2) == callret("godi.Provider.CreateScope", 0, 1)
 //@        && ncalls("fiber.Ctx.Next") == 0 && ncalls("fnvar:mw") == 0 && ncalls("godi.Scope.Close") == 0
 //@   ensures[C16] scope_closed_exactly_once: callret("godi.Provider.CreateScope", 0, 1) == nil ==> ncalls("godi.Scope.Close") == 1 && callarg("godi.Scope.Close", 0, 0) == callret("godi.Provider.CreateScope", 0, 0)
-// Panic exit: this middleware has no deferred Close. What is proved instead is that the scope is stored in the request locals before any
-// user code runs (scope_attached_before_user_code); "fasthttp closes io.Closer user values when the request context is released" is an
-// ASSUMED external contract (listed in the evidence), exercised by the replay family middleware/request.
-//@   panics[C16] scope_stored_for_the_framework_to_close: ncalls("godi.Provider.CreateScope") == 1 && (!callpanicked("godi.Provider.CreateScope", 0) && callret("godi.Provider.CreateScope", 0, 1) == nil && ncalls("godi.Scope.Close") == 0 ==>
-//@        ncalls("fiber.Ctx.Locals") == 1 && len(callarg("fiber.Ctx.Locals", 0, 2, "[]any")) == 1 && callarg("fiber.Ctx.Locals", 0, 2, "[]any")[0] == callret("godi.Provider.CreateScope", 0, 0))
+//@   panics[C16] scope_closed_exactly_once_on_panic: ncalls("godi.Provider.CreateScope") == 1 && (!callpanicked("godi.Provider.CreateScope", 0) && callret("godi.Provider.CreateScope", 0, 1) == nil ==>
+//@        ncalls("godi.Scope.Close") == 1 && callarg("godi.Scope.Close", 0, 0) == callret("godi.Provider.CreateScope", 0, 0))
 //@   ensures[C16] close_after_the_handler_chain: forall a int :: (0 <= a && a < ncalls("fnvar:mw") ==> calltime("fnvar:mw", a) < calltime("godi.Scope.Close", 0))
 //@        && (0 <= a && a < ncalls("fiber.Ctx.Next") ==> calltime("fiber.Ctx.Next", a) < calltime("godi.Scope.Close", 0))
 //@   ensures[C16] middlewares_in_order_with_this_scope: forall c int :: 0 <= c && c < ncalls("fnvar:mw") ==> c < len(mws) && callarg("fnvar:mw", c, 0) == mws[c]
